@@ -20,8 +20,14 @@
 #include <stdlib.h>
 #include <string.h>
 
-typedef struct {
+typedef struct iterator_t {
 	sqfs_dir_iterator_t base;
+
+	/* iterator of the enclosing directory, if opened via open_subdir */
+	struct iterator_t *parent;
+
+	/* inode number of the directory this iterator lists */
+	sqfs_u32 dir_inum;
 
 	sqfs_dir_reader_state_t state;
 
@@ -102,7 +108,8 @@ static int it_read_link(sqfs_dir_iterator_t *base, char **out)
 
 static int it_open_subdir(sqfs_dir_iterator_t *base, sqfs_dir_iterator_t **out)
 {
-	iterator_t *it = (iterator_t *)base;
+	iterator_t *it = (iterator_t *)base, *p;
+	int ret;
 
 	*out = NULL;
 
@@ -114,8 +121,18 @@ static int it_open_subdir(sqfs_dir_iterator_t *base, sqfs_dir_iterator_t **out)
 		return SQFS_ERROR_NOT_DIR;
 	}
 
-	return sqfs_dir_iterator_create(it->rd, it->id, it->data, it->xattr,
-					it->inode, out);
+	/* a directory that is its own ancestor would recurse forever */
+	for (p = it; p != NULL; p = p->parent) {
+		if (p->dir_inum == it->inode->base.inode_number)
+			return SQFS_ERROR_LINK_LOOP;
+	}
+
+	ret = sqfs_dir_iterator_create(it->rd, it->id, it->data, it->xattr,
+				       it->inode, out);
+	if (ret == 0)
+		((iterator_t *)*out)->parent = sqfs_grab(it);
+
+	return ret;
 }
 
 static void it_ignore_subdir(sqfs_dir_iterator_t *it)
@@ -162,6 +179,7 @@ static void it_destroy(sqfs_object_t *obj)
 
 	sqfs_free(it->inode);
 	sqfs_free(it->dent);
+	sqfs_drop(it->parent);
 	sqfs_drop(it->id);
 	sqfs_drop(it->rd);
 	sqfs_drop(it->data);
@@ -201,6 +219,7 @@ int sqfs_dir_iterator_create(sqfs_dir_reader_t *rd,
 	base->open_file_ro = it_open_file_ro;
 	base->read_xattr = it_read_xattr;
 
+	it->dir_inum = inode->base.inode_number;
 	it->id = sqfs_grab(id);
 	it->rd = sqfs_grab(rd);
 
